@@ -95,6 +95,9 @@ pub struct RunStats {
     /// threads created by the code under test itself (outside the simulated pool)
     #[serde(default)]
     pub foreign_threads: u64,
+    /// injected failures of caller-supplied callbacks (during the warm-up of `Context::Warm`)
+    #[serde(default)]
+    pub callback_faults: u64,
     pub steals: u64,
     pub injections: u64,
     pub handoffs: u64,
@@ -116,6 +119,7 @@ impl RunStats {
             pushes: t.pushes,
             preempt_points: t.preempt_points,
             foreign_threads: 0,
+            callback_faults: 0,
             steals: t.steals,
             injections: t.injections,
             handoffs: t.handoffs,
